@@ -1,6 +1,110 @@
 import YaegiVerif.Common.Sexp
-/- Line-protocol front end for C04 (glue). Placeholder until the property's model exists. -/
+import YaegiVerif.Model.Share
+import YaegiVerif.Model.ShareDom
+import YaegiVerif.Model.ShareGrowth
+import YaegiVerif.Spec.GoValue
+import YaegiVerif.Generated.C04
+/- Line-protocol front end for C04 (glue, not a proof obligation).
+     run OP…   → y=<status>~<line>|<line>… g=<status>~<line>|… d=<0|1> c=<class or ->
+   The yaegi model runs with the facts regenerated from the repository (Generated.C04.share).
+   Terms:
+     VAL   (i n) | (a VAL…) | (s VAL…) | nil | nils
+     IEXP  n | (v x)
+     LEXP  (v x) | (f LEXP i) | (x LEXP IEXP) | (d LEXP)
+     REXP  (lit VAL) | (ld LEXP) | (add REXP k) | (adr LEXP) | (mks VAL…) | (mk VAL len cap) | (mkm (k VAL)…)
+           | (new VAL) | (sl LEXP lo hi max) with _ for an absent bound | (lk LEXP IEXP VAL) | (len LEXP) | (cap LEXP) | (id REXP)
+     SOP   (as LEXP REXP) | (op LEXP k) | (def x REXP) | (mul (LEXP…) (REXP…)) | (muld (x…) (0|1…) (VAL…) (REXP…))
+           | (app d LEXP REXP (REXP…) VAL esz noscan) | (apps d LEXP REXP REXP VAL esz noscan) | (cp REXP REXP)
+           | (ms LEXP IEXP REXP) | (md LEXP IEXP) | (lk2 d x ok LEXP IEXP VAL) | (call d LEXP LEXP k REXP) | (show x…)
+     OP    SOP | (rng LEXP i v (SOP…)) | (capt LEXP x LEXP k (n…)) -/
 namespace YaegiVerif.Driver.C04
-open YaegiVerif
-def handle (_args : List Sexp) : String := "unimplemented"
+open YaegiVerif YaegiVerif.Share
+
+partial def parseVal : Sexp → Option Val
+  | .atom "nil" => some .nil
+  | .atom "nils" => some .nilslice
+  | .list [.atom "i", n] => n.int?.map .int
+  | .list (.atom "a" :: vs) => (vs.mapM parseVal).map fun l => .arr (Vals.ofList l)
+  | .list (.atom "s" :: vs) => (vs.mapM parseVal).map fun l => .str (Vals.ofList l)
+  | _ => none
+
+def parseI : Sexp → Option IExp
+  | .list [.atom "v", x] => x.nat?.map .var
+  | s => s.nat?.map .lit
+
+def parseOptI : Sexp → Option (Option IExp)
+  | .atom "_" => some none
+  | s => (parseI s).map some
+
+partial def parseL : Sexp → Option LExp
+  | .list [.atom "v", x] => x.nat?.map .var
+  | .list [.atom "f", l, i] => do some (.field (← parseL l) (← i.nat?))
+  | .list [.atom "x", l, e] => do some (.index (← parseL l) (← parseI e))
+  | .list [.atom "d", l] => do some (.deref (← parseL l))
+  | _ => none
+
+partial def parseR : Sexp → Option RExp
+  | .list [.atom "lit", v] => (parseVal v).map .lit
+  | .list [.atom "ld", l] => (parseL l).map .load
+  | .list [.atom "add", a, k] => do some (.add (← parseR a) (← k.int?))
+  | .list [.atom "adr", l] => (parseL l).map .addr
+  | .list (.atom "mks" :: vs) => (vs.mapM parseVal).map fun l => .mkslice (Vals.ofList l)
+  | .list [.atom "mk", z, n, c] => do some (.make (← parseVal z) (← n.nat?) (← c.nat?))
+  | .list (.atom "mkm" :: es) => do
+    let ents ← es.mapM fun e => match e with
+      | .list [k, v] => do some (Val.str (.cons (.int (← k.int?)) (.cons (← parseVal v) .nil)))
+      | _ => none
+    some (.mkmap (Vals.ofList ents))
+  | .list [.atom "new", v] => (parseVal v).map .new
+  | .list [.atom "sl", l, lo, hi, mx] => do some (.slice (← parseL l) (← parseOptI lo) (← parseOptI hi) (← parseOptI mx))
+  | .list [.atom "lk", m, k, z] => do some (.lookup (← parseL m) (← parseI k) (← parseVal z))
+  | .list [.atom "len", l] => (parseL l).map .len
+  | .list [.atom "cap", l] => (parseL l).map .cap
+  | .list [.atom "id", a] => (parseR a).map .idcall
+  | _ => none
+
+def parseList {α} (f : Sexp → Option α) : Sexp → Option (List α)
+  | .list xs => xs.mapM f
+  | _ => none
+
+def parseS : Sexp → Option SOp
+  | .list [.atom "as", l, r] => do some (.assign (← parseL l) (← parseR r))
+  | .list [.atom "op", l, k] => do some (.opassign (← parseL l) (← k.int?))
+  | .list [.atom "def", x, r] => do some (.define (← x.nat?) (← parseR r))
+  | .list [.atom "mul", ls, rs] => do some (.multi (← parseList parseL ls) (← parseList parseR rs))
+  | .list [.atom "muld", xs, rd, zs, rs] => do
+    some (.multidef (← parseList Sexp.nat? xs) (← parseList Sexp.bool? rd) (← parseList parseVal zs) (← parseList parseR rs))
+  | .list [.atom "app", d, l, s, args, z, esz, ns] => do
+    some (.append (← d.bool?) (← parseL l) (← parseR s) (← parseList parseR args) (← parseVal z) (← esz.nat?) (← ns.bool?))
+  | .list [.atom "apps", d, l, s, t, z, esz, ns] => do
+    some (.appendSlice (← d.bool?) (← parseL l) (← parseR s) (← parseR t) (← parseVal z) (← esz.nat?) (← ns.bool?))
+  | .list [.atom "cp", d, s] => do some (.copy (← parseR d) (← parseR s))
+  | .list [.atom "ms", m, k, r] => do some (.mapSet (← parseL m) (← parseI k) (← parseR r))
+  | .list [.atom "md", m, k] => do some (.mapDel (← parseL m) (← parseI k))
+  | .list [.atom "lk2", d, x, ok, m, k, z] => do
+    some (.lookup2 (← d.bool?) (← x.nat?) (← ok.nat?) (← parseL m) (← parseI k) (← parseVal z))
+  | .list [.atom "call", d, l, sel, k, a] => do
+    some (.callMut (← d.bool?) (← parseL l) (← parseL sel) (← k.int?) (← parseR a))
+  | .list (.atom "show" :: xs) => (xs.mapM Sexp.nat?).map .show
+  | _ => none
+
+def parseOp : Sexp → Option Op
+  | .list [.atom "rng", l, i, v, body] => do some (.range (← parseL l) (← i.nat?) (← v.nat?) (← parseList parseS body))
+  | .list [.atom "capt", l, x, sel, k, calls] => do
+    some (.capture (← parseL l) (← x.nat?) (← parseL sel) (← k.int?) (← parseList Sexp.nat? calls))
+  | s => (parseS s).map .s
+
+def showObs (o : Obs) : String := o.status ++ "~" ++ joinWith "|" o.out
+
+def handle (args : List Sexp) : String :=
+  match args with
+  | .atom "run" :: ops =>
+    (match ops.mapM parseOp with
+     | some ops =>
+       let y := obsOf (runY Generated.C04.share goGrowth St.empty ops)
+       let g := obsOf (Spec.runGo goGrowth St.empty ops)
+       s!"y={showObs y} g={showObs g} d={if Dom ops then "1" else "0"} c={(classOf ops).getD "-"}"
+     | none => "bad-op")
+  | _ => "bad-op"
+
 end YaegiVerif.Driver.C04
